@@ -48,6 +48,8 @@ type pdScenario struct {
 	Verdict     string        `json:"verdict"` // what the complete reply says (granted | badversion | rejected | malformed)
 	Cuts        []int         `json:"cuts"`    // segment sizes, then the rest
 	EOF         bool          `json:"eof"`     // close after the reply bytes
+	Dest2       string        `json:"dest2"`   // kind = pair: the second dial's destination
+	Hold        string        `json:"hold"`    // kind = pair: where the first dial is held while the second runs (connect | reply)
 	ConnectFail bool          `json:"connectfail"`
 	WriteFail   bool          `json:"writefail"`
 }
@@ -193,6 +195,8 @@ func TestVerifProxyDial(t *testing.T) {
 			pdStream(w, &s)
 		case "reply":
 			pdReply(w, &s)
+		case "pair":
+			pdPair(w, &s)
 		}
 	}
 	if err := w.Close(); err != nil {
@@ -363,4 +367,155 @@ func pdReply(w *vt.Writer, s *pdScenario) {
 	w.Emit(vt.Ev{"event": "PTunnel", "sent": len(want), "got": len(got), "equal": bytes.Equal(got, want[:len(got)]),
 		"remote": s.Proxy == "socks4a" || (r.c.RemoteAddr() != nil && r.c.RemoteAddr().String() == s.Dest)})
 	r.c.Close()
+}
+
+// pairFwd hands every forward connect a link of its own; the first one can be held back until released.
+type pairFwd struct {
+	links   []*wire.Link
+	n       int32
+	entered chan struct{}
+	gate    chan struct{}
+	mu      chan struct{}
+}
+
+func (f *pairFwd) Dial(network, addr string) (net.Conn, error) {
+	f.mu <- struct{}{}
+	i := int(f.n)
+	f.n++
+	<-f.mu
+	if i >= len(f.links) {
+		return nil, errors.New("unexpected third connect")
+	}
+	if i == 0 {
+		close(f.entered)
+		<-f.gate
+	}
+	return f.links[i].A, nil
+}
+
+// pdPair: two dials of ONE dialer overlap (a proxy.Dialer is used from several goroutines: every handler of a transport
+// that keeps its dialer, http.Transport's connection pool).  Dial A is held - before its connect to the proxy returns, or
+// while it waits for the proxy's reply - until dial B (another destination) has completed; each request must still be the
+// protocol's request for ITS destination, and each returned connection the tunnel of ITS proxy connection.
+func pdPair(w *vt.Writer, s *pdScenario) {
+	w.Emit(vt.Ev{"event": "PStart", "proxy": s.Proxy, "destok": true, "mode": "pair"})
+	fwd := &pairFwd{links: []*wire.Link{wire.NewLink(false, 0), wire.NewLink(false, 0)}, entered: make(chan struct{}), gate: make(chan struct{}), mu: make(chan struct{}, 1)}
+	if s.Hold != "connect" {
+		close(fwd.gate)
+	}
+	d, err := proxy.FromURL(pdURI(s), fwd)
+	if err != nil {
+		w.Emit(vt.Ev{"event": "DriverDead", "why": "FromURL: " + err.Error()})
+		return
+	}
+	type dres struct {
+		c   net.Conn
+		err error
+	}
+	sA, sB := *s, *s
+	sB.Dest = s.Dest2
+	chA, chB := make(chan dres, 1), make(chan dres, 1)
+	reps := pdGoodReplies[s.Proxy]
+	rep, _ := hex.DecodeString(reps[s.ReplyStyle%len(reps)])
+	dead := func(why string) {
+		w.Emit(vt.Ev{"event": "DriverDead", "why": why})
+		close2 := func(l *wire.Link) { l.A.DeliverEOF(); l.A.Close() }
+		select {
+		case <-fwd.gate:
+		default:
+			close(fwd.gate)
+		}
+		close2(fwd.links[0])
+		close2(fwd.links[1])
+	}
+	// request of one dial: wait for it on its link, check it against ITS destination
+	request := func(sc *pdScenario, l *wire.Link) bool {
+		var req []byte
+		deadline := time.Now().Add(10 * time.Second)
+		for time.Now().Before(deadline) {
+			req = append(req, l.A.Take()...)
+			if (sc.Proxy == "socks4a" && len(req) > 8 && req[len(req)-1] == 0) || (sc.Proxy == "http" && bytes.HasSuffix(req, []byte("\r\n\r\n"))) {
+				ok, why := pdCheckRequest(sc, req)
+				w.Emit(vt.Ev{"event": "PReq", "ok": ok, "why": why})
+				return true
+			}
+			time.Sleep(200 * time.Microsecond)
+		}
+		return false
+	}
+	// grant, and check that the returned connection is the tunnel of this link
+	finish := func(tag byte, l *wire.Link, ch chan dres) bool {
+		trail := bytes.Repeat([]byte{tag}, 40)
+		l.A.Deliver(append(append([]byte{}, rep...), trail...))
+		var r dres
+		select {
+		case r = <-ch:
+		case <-time.After(10 * time.Second):
+			return false
+		}
+		if r.err != nil || r.c == nil {
+			e := ""
+			if r.err != nil {
+				e = r.err.Error()
+			}
+			w.Emit(vt.Ev{"event": "PTunnel", "sent": len(trail), "got": 0, "equal": false, "remote": false, "err": e})
+			return true
+		}
+		got := make([]byte, 0, len(trail))
+		buf := make([]byte, 16)
+		rch := make(chan struct{})
+		go func() {
+			defer close(rch)
+			for len(got) < len(trail) {
+				n, err := r.c.Read(buf)
+				got = append(got, buf[:n]...)
+				if err != nil {
+					return
+				}
+			}
+		}()
+		select {
+		case <-rch:
+		case <-time.After(3 * time.Second):
+			r.c.Close()
+			<-rch
+		}
+		w.Emit(vt.Ev{"event": "PTunnel", "sent": len(trail), "got": len(got), "equal": bytes.Equal(got, trail[:len(got)]), "remote": true})
+		r.c.Close()
+		return true
+	}
+	go func() { c, err := d.Dial("tcp", sA.Dest); chA <- dres{c, err} }()
+	select {
+	case <-fwd.entered:
+	case <-time.After(10 * time.Second):
+		dead("first dial never connected to the proxy")
+		return
+	}
+	if s.Hold != "connect" {
+		// A's request goes out now, its reply is held back
+		if !request(&sA, fwd.links[0]) {
+			dead("first dial: no request")
+			return
+		}
+	}
+	go func() { c, err := d.Dial("tcp", sB.Dest); chB <- dres{c, err} }()
+	if !request(&sB, fwd.links[1]) {
+		dead("second dial: no request")
+		return
+	}
+	if !finish('B', fwd.links[1], chB) {
+		dead("second dial did not return")
+		return
+	}
+	if s.Hold == "connect" {
+		close(fwd.gate)
+		if !request(&sA, fwd.links[0]) {
+			dead("first dial: no request")
+			return
+		}
+	}
+	if !finish('A', fwd.links[0], chA) {
+		dead("first dial did not return")
+		return
+	}
 }
